@@ -102,13 +102,7 @@ namespace c12
       const unsigned long b = (unsigned long)( c.m_begin.data - base ) & 0xffUL;
       const unsigned long e = c.has_content() ? ( (unsigned long)( c.m_end.data - base ) & 0xffUL ) : 0xffUL;
       const unsigned long nc = c.children.size() & 0xffUL;
-#ifdef C12_EXP_PACK1
-      return ( 1UL << 63 );
-#elif defined( C12_EXP_PACK2 )
-      return ( 1UL << 63 ) | id;
-#else
       return ( 1UL << 63 ) | id | ( tid << 16 ) | ( b << 32 ) | ( e << 40 ) | ( nc << 48 );
-#endif
    }
 
    template< int D, typename Types >
